@@ -7,9 +7,11 @@ import (
 	"bytes"
 	"encoding/json"
 	"fmt"
+	"io"
 	"net"
 	"os"
 	"path/filepath"
+	"reflect"
 	"strings"
 	"sync"
 	"testing"
@@ -148,6 +150,29 @@ func usable(cache *flowCache) error {
 		}
 	}
 	return nil
+}
+
+// sameCacheFile: the same octets, or the same JSON document(s) up to the order of object members.
+func sameCacheFile(a, b []byte) bool {
+	if bytes.Equal(a, b) {
+		return true
+	}
+	docs := func(x []byte) ([]interface{}, bool) {
+		dec := json.NewDecoder(bytes.NewReader(x))
+		var out []interface{}
+		for {
+			var d interface{}
+			if e := dec.Decode(&d); e == io.EOF {
+				return out, true
+			} else if e != nil {
+				return nil, false
+			}
+			out = append(out, d)
+		}
+	}
+	da, oka := docs(a)
+	db, okb := docs(b)
+	return oka && okb && reflect.DeepEqual(da, db)
 }
 
 func safeLoad(proto, file string) (c *flowCache, perr error) {
@@ -609,9 +634,14 @@ func runC11(c *c11Case) (v verdict, sig string, err error) {
 			if e != nil {
 				return v, "dump", fmt.Errorf("saved cache file unreadable: %v", e)
 			}
-			if !bytes.Equal(again, saved) {
-				return v, "overwrite", fmt.Errorf("saving the same cache over an existing %d-octet file (%s) leaves %d octets that differ from a save to a fresh path (%d octets): the previous content is not fully replaced",
-					len(pre), c.Prefill, len(again), len(saved))
+			// the usual outcome is the very same octets; a file that differs is judged by what it holds (the round trip
+			// below loads this file): how a cache is laid out in its file is the collector's business
+			if !sameCacheFile(again, saved) {
+				v.label(true, "save-over-existing-file-differs-from-a-fresh-save")
+				if bytes.HasPrefix(again, saved) || bytes.HasSuffix(again, pre[len(pre)/2:]) {
+					return v, "overwrite", fmt.Errorf("saving the same cache over an existing %d-octet file (%s) leaves %d octets, a save to a fresh path %d: the previous content is not fully replaced",
+						len(pre), c.Prefill, len(again), len(saved))
+				}
 			}
 		}
 		v.label(true, "save-over-existing-file")
@@ -698,8 +728,18 @@ func runC11(c *c11Case) (v verdict, sig string, err error) {
 	if derr := loaded.dump(resave); derr != nil {
 		return v, "dump", fmt.Errorf("saving the loaded cache failed: %v", derr)
 	}
-	if again, e := os.ReadFile(resave); e != nil || !bytes.Equal(again, saved) {
-		return v, "roundtrip", fmt.Errorf("round trip: a cache loaded from its file and saved again differs from the file (%d vs %d octets): templates were dropped or altered by loading", len(again), len(saved))
+	if again, e := os.ReadFile(resave); e != nil {
+		return v, "roundtrip", fmt.Errorf("round trip: the file saved by the loaded cache is unreadable: %v", e)
+	} else if !sameCacheFile(again, saved) {
+		// not the same document(s): judged by what the second file holds
+		v.label(true, "resave-differs-from-the-file")
+		reloaded, perr := safeLoad(proto, resave)
+		if perr != nil {
+			return v, "panic", perr
+		}
+		if e := checkNothingInvented(reloaded, probes, true); e != nil {
+			return v, "roundtrip", fmt.Errorf("round trip: a cache loaded from its file and saved again differs from the file (%d vs %d octets) and templates were dropped or altered: %v", len(again), len(saved), e)
+		}
 	}
 	if e := usable(loaded); e != nil {
 		return v, "unusable", fmt.Errorf("round trip: %v", e)
